@@ -255,7 +255,17 @@ def run_ippe(case):
             vecs = LighthouseBsVectors()
             for (h, v, x) in room.angles(b, i):
                 vecs.append(LighthouseBsVector(h, v))
-            sols = IppeCf.solve(sensors, vecs.projection_pair_list())
+            Q = vecs.projection_pair_list()
+            sols = IppeCf.solve(sensors, Q)
+            # each returned solution is one pose: its reprojection error is the one of ITS rotation with ITS translation
+            for k, s_ in enumerate(sols):
+                P = (np.asarray(s_.R) @ np.asarray(sensors).T).T + np.ravel(s_.t)
+                if np.all(P[:, 0] > 1e-6):
+                    err = float(np.linalg.norm(np.stack([P[:, 1] / P[:, 0], P[:, 2] / P[:, 0]], axis=1) - np.asarray(Q)))
+                    if abs(err - float(s_.reproj_err)) > 1e-7 + 1e-5 * err:
+                        out.fail('ippe:solution-inconsistent', '%s station %d pose %d: solution %d reports reprojection error %.3e, its pose reprojects with %.3e' % (
+                            desc, b, i, k, float(s_.reproj_err), err))
+                        return out
             Rb, tb_ = room.bs[b]
             Rc, tc_ = room.cfs[i]
             # pose of the Crazyflie in the station frame
